@@ -93,7 +93,7 @@ var (
 	allowFixedAnywhere   = false // F-C02-fixed-duplicated-after-push
 	allowEmptyRowGroup   = true  // F-C02-fixed-layout-empty-first-group (fixed: c3100ed)
 	allowGotextPreserved = true  // F-C02-gotext-preserved-space-text-not-cut (fixed: 58bd785)
-	allowFirstLetter     = false // F-C02-first-letter-lost: every ::first-letter style loses the letter
+	allowFirstLetter     = true  // F-C02-first-letter-lost repaired (3a0d694 inline form, c6c5031 float form)
 )
 
 func init() {
